@@ -640,10 +640,14 @@ func runC20(c *RunCtx) {
 						}
 					}
 				}
-				rb := bytes.NewBuffer(cloneBytes(op.in))
+				src := cloneBytes(op.in)
+				rb := bytes.NewBuffer(src)
 				rd := asCodec(op.recv)
 				op.decRes = liteCall(func() error { return rd.Decode(rb) })
 				op.left = rb.Len()
+				for i := range src {
+					src[i] ^= 0x5C // the task recycles its receive buffer at once
+				}
 			}
 		})
 	}
